@@ -55,6 +55,10 @@ FIXED = [
  ("C18", "fix: QSopt_pivotin_row/col leaked six numbers when there was nothing to pivot", "C18|leak|mpq_QSopt_pivotin_row", "ILLsimplex_pivotin early returns skipped EGlpNumClearVar"),
  ("C19", "fix: esolver -b exited with an error whenever the problem had no optimal basis", "C19|valid-file|exit-nonzero", "esolver -b on an unbounded problem exited 1 (no basis to write)"),
  ("C12", "fix: QSexact_verify's exact fallback judged the double solver's basis, not the given one", "C12|returned|verify-denies", "QSexact_verify(prestep) answered 0 for an exactly optimal basis because the fallback tested the double solver's basis"),
+ ("C17", "fix: solution queries on a never-solved problem branched on uninitialised status fields", "C17|memcheck:Conditional jump or move depends on uninitialised value(s)|mpq_ILLlib_objval>mpq_QSget_objval", "QSget_objval / QSget_infeas_array before any solve read uninitialised lpinfo status fields"),
+ ("C17", "fix: QSexact_basis_dualstatus passed an uninitialised primal status to the status update", "C17|memcheck:Conditional jump or move depends on uninitialised value(s)|mpq_ILLfct_set_status_values>QSexact_basis_dualstatus", "fi.pstatus uninitialised in QSexact_basis_dualstatus"),
+ ("C17", "fix: addrows/addcols did pointer arithmetic on NULL arrays for lines without entries", "C11|fuzz|ubsan:applying zero offset to null pointer|dbl_ILLlib_addrows>dbl_ILLlib_newrows>dbl_QScopy_prob", "NULL + 0 pointer arithmetic in ILLlib_addrows/addcols (clang UBSan)"),
+ ("C11", "fix: QSexact_solver died with SIGFPE when the double solve returned inf or nan", "C11|file|asan:FPE|mpq_EGlpNumSet>QSexact_solver", "a file with coefficients beyond the double range made QSexact_solver convert inf/nan with mpq_set_d (SIGFPE)"),
 ]
 OPEN = []
 out = []
